@@ -389,6 +389,8 @@ pub fn classify_update_message(status: i32, msg: &str) -> String {
                 "dl"
             } else if msg.starts_with("This app reports version") {
                 "hash"
+            } else if msg.starts_with("Patch signature") || msg.starts_with("Failed to decode") {
+                "sig"
             } else {
                 "other"
             }
